@@ -92,24 +92,28 @@ type problem struct {
 
 // inResult is what the child reports per input (one JSON line, appended after the input was handled).
 type inResult struct {
-	Seq        int       `json:"seq"`
-	Index      int       `json:"index"`
-	Kind       string    `json:"kind"`
-	Class      string    `json:"class"`
-	Name       string    `json:"name"`
-	Skipped    bool      `json:"skipped,omitempty"`
-	Reloads    int       `json:"reloads,omitempty"`    // reload attempts of heimdall observed (log line / processed event)
-	Rejected   int       `json:"rejected,omitempty"`   // ... of which heimdall logged a rejection
-	Accepted   int       `json:"accepted,omitempty"`   // ... of which were applied
-	Sentinels  int       `json:"sentinels,omitempty"`  // distinct valid sentinels observed in effect
-	PrevChecks int       `json:"prev_checks,omitempty"` // "previous state still in effect" confirmed after a rejection
-	Nudges     int       `json:"nudges,omitempty"`     // single missed events repaired by re-writing (no verdict)
-	Status     int       `json:"status,omitempty"`     // HTTP status heimdall answered with (request / remote kinds)
-	Hit        bool      `json:"hit,omitempty"`        // remote kinds: the scripted server was asked during the request
-	Observed   bool      `json:"observed,omitempty"`   // heimdall demonstrably consumed the input
-	Alive      int       `json:"alive,omitempty"`      // liveness probes answered
-	Problems   []problem `json:"problems,omitempty"`
-	Notes      []string  `json:"notes,omitempty"`
+	Seq        int    `json:"seq"`
+	Index      int    `json:"index"`
+	Kind       string `json:"kind"`
+	Class      string `json:"class"`
+	Name       string `json:"name"`
+	Skipped    bool   `json:"skipped,omitempty"`
+	Reloads    int    `json:"reloads,omitempty"`     // reload attempts of heimdall observed (log line / processed event)
+	Rejected   int    `json:"rejected,omitempty"`    // ... of which heimdall logged a rejection
+	Accepted   int    `json:"accepted,omitempty"`    // ... of which were applied
+	Sentinels  int    `json:"sentinels,omitempty"`   // distinct valid sentinels observed in effect
+	PrevChecks int    `json:"prev_checks,omitempty"` // "previous state still in effect" confirmed after a rejection
+	Nudges     int    `json:"nudges,omitempty"`      // single missed events repaired by re-writing (no verdict)
+	Status     int    `json:"status,omitempty"`      // HTTP status heimdall answered with (request / remote kinds)
+	Hit        bool   `json:"hit,omitempty"`         // remote kinds: the scripted server was asked during the request
+	Observed   bool   `json:"observed,omitempty"`    // heimdall demonstrably consumed the input
+	Alive      int    `json:"alive,omitempty"`       // liveness probes answered
+	// ShapeChecks: a rule file made the previous rule set disappear without a logged rejection and was judged by ruleFileShape
+	ShapeChecks int `json:"shape_checks,omitempty"`
+	// WatcherErrors: errors delivered on the Errors channel of the secrets watcher's fsnotify instance
+	WatcherErrors int       `json:"watcher_errors,omitempty"`
+	Problems      []problem `json:"problems,omitempty"`
+	Notes         []string  `json:"notes,omitempty"`
 }
 
 type doneMarker struct {
